@@ -4,6 +4,7 @@ import (
 	"fmt"
 	"go/token"
 	"go/types"
+	"os"
 	"path/filepath"
 	"strings"
 
@@ -124,6 +125,14 @@ func parseConverter(ctx *context, rawConverter *RawConverter, global RawLines) (
 	}
 
 	resolveOutputPackage(ctx, c)
+
+	outputFile := c.OutputFile
+	if !filepath.IsAbs(outputFile) {
+		outputFile = filepath.Join(filepath.Dir(c.FileName), outputFile)
+	}
+	if info, err := os.Stat(outputFile); err == nil && info.IsDir() {
+		return nil, fmt.Errorf("error parsing 'goverter:output:file' at\n    %s\n    %s\n\nthe output file is a directory:\n    %s", c.Location, c.IDString(), outputFile)
+	}
 
 	if err := resolveExtend(ctx, c); err != nil {
 		return nil, err
